@@ -263,8 +263,14 @@ def run(ctx):
         partners.setdefault(a, []).append((b, dev))
         partners.setdefault(b, []).append((a, dev))
 
+    def sig(dev):
+        """one-digit signature of a relative deviation; part of the key so that a different wrong value at
+        the same place is a different defect and does not hide behind a known finding"""
+        return "%+.0e" % dev
+
     def uc_groups(keys):
-        """UnitConverter pairs failing in one dimension -> the unit all of them share, if unique."""
+        """UnitConverter pairs failing in one dimension -> key named after the unit all of them share (if
+        unique), with the median deviation of the factors INTO that unit as signature."""
         out = {}
         bydim = {}
         for k in keys:
@@ -274,17 +280,26 @@ def run(ctx):
             cand = set(prs[0])
             for ab in prs:
                 cand &= set(ab)
-            for ab in prs:
-                k = "UnitConverter:%s:%s>%s" % (dim, ab[0], ab[1])
-                out[k] = ("factor:UnitConverter:%s:%s" % (dim, sorted(cand)[0]) if len(cand) == 1
-                          else "factor:UnitConverter:%s:%s~%s" % ((dim,) + tuple(sorted(ab))))
+            if len(cand) == 1:
+                u = sorted(cand)[0]
+                devs = []
+                for ab in prs:
+                    v, expect = bad_ref["UnitConverter:%s:%s>%s" % (dim, ab[0], ab[1])][:2]
+                    devs.append(v / expect - 1.0 if ab[1] == u else expect / v - 1.0)
+                devs.sort()
+                key = "factor:UnitConverter:%s:%s:%s" % (dim, u, sig(devs[len(devs) // 2]))
+                for ab in prs:
+                    out["UnitConverter:%s:%s>%s" % (dim, ab[0], ab[1])] = key
+            else:
+                for ab in prs:
+                    k = "UnitConverter:%s:%s>%s" % (dim, ab[0], ab[1])
+                    out[k] = "factor:UnitConverter:%s:%s>%s:%s" % (dim, ab[0], ab[1],
+                                                                 sig(bad_ref[k][0] / bad_ref[k][1] - 1.0))
         return out
 
     ucmap = uc_groups([k for k in bad_ref if k.startswith("UnitConverter:")])
     for k, (v, expect, rel, r) in sorted(bad_ref.items()):
-        # the ratio code/reference is part of the key: a different wrong value at the same place is a
-        # different defect and must not hide behind a known finding
-        key = "%s:x%.5g" % (ucmap.get(k, "factor:" + k), v / expect)
+        key = ucmap.get(k) or "factor:%s:%s" % (k, sig(v / expect - 1.0))
         others = ", ".join("%s (%.1e)" % pb for pb in sorted(partners.get(k, []))[:4])
         violation(key, "%s = %.10g but CODATA/SI gives %.10g for %s (rel %.2e > 5e-5)%s" % (
             k, v, expect, {g: n for g, n in r["vec"].items() if n}, rel,
